@@ -23,6 +23,7 @@ type addrStep struct {
 	twice bool   // Bind the same address twice in a row before serving (Bind path only)
 	// Bind, Shutdown without having served, Bind again with the same string (Bind path only)
 	shutBetween bool
+	serveAnyway bool   // after a refused Bind: call DoListen all the same
 	viaListen   bool   // serve with Listen(addr) instead of Bind(addr) + DoListen
 	must        bool   // the generator knows that the endpoint, read per the property, is listenable
 	cmp         bool   // the listener's Addr().String() is expected to equal the endpoint text literally
@@ -248,6 +249,20 @@ func runAddrStep(svc *varlink.Service, vendor string, s addrStep) (o addrObs) {
 		}
 		if err != nil {
 			o.class = classifyBindErr(err)
+			if l, _ := svc.GetListener(); l == nil && s.serveAnyway {
+				// a caller that does not look at Bind's error goes on to serve: there is nothing to serve, so this
+				// returns an error at once, and it must not leave the service unable to bind either
+				ret := make(chan error, 2)
+				go func() {
+					defer func() { recover(); ret <- nil }()
+					ret <- svc.DoListen(ctx, 0)
+				}()
+				select {
+				case <-ret:
+				case <-time.After(2 * time.Second):
+					svc.Shutdown()
+				}
+			}
 		} else {
 			o.class = "ok"
 		}
@@ -370,6 +385,7 @@ func init() {
 				//  legitimately fail with "address in use")
 				st.twice = !st.viaListen && st.path != "" && g.Chance(1, 3)
 				st.shutBetween = !st.viaListen && !st.twice && st.must && g.Chance(1, 3)
+				st.serveAnyway = !st.viaListen && g.Chance(1, 2)
 				steps = append(steps, st)
 			}
 			// whatever happened before, the service must still be able to bind
